@@ -1,5 +1,6 @@
 import CuqiVerif.Model.Proto
 import CuqiVerif.Model.C19
+import CuqiVerif.Model.C19_access
 open CuqiVerif CuqiVerif.Proto CuqiVerif.C19
 
 /-! Line protocol of the C19 model.
@@ -116,6 +117,10 @@ def fmtState (s : Samples) : String :=
   s!"{fmtNatList s.shape}~{fmtBool s.isPar}~{fmtBool s.isVec}~{s.geom.tag}~{fmtMat s.cols}"
 
 inductive Op | bt (b t : Int) | fv | vec | par
+  | sub (i : SubIdx) | setVec (v : Bool) | setPar (v : Bool)
+
+def parseIntList (s : String) : Option (List Int) :=
+  if s = "_" then some [] else (s.splitOn ",").mapM (·.toInt?)
 
 def parseOp (s : String) : Option Op :=
   match s.splitOn ":" with
@@ -123,6 +128,10 @@ def parseOp (s : String) : Option Op :=
   | ["fv"] => some .fv
   | ["vec"] => some .vec
   | ["par"] => some .par
+  | ["sub", k] => do let k ← k.toInt?; pure (.sub (.num k))
+  | ["subl", ks] => do let ks ← parseIntList ks; pure (.sub (.list ks))
+  | ["setvec", v] => do let v ← parseBool v; pure (.setVec v)
+  | ["setpar", v] => do let v ← parseBool v; pure (.setPar v)
   | _ => none
 
 def Op.run (s : Samples) : Op → Except String Samples
@@ -130,6 +139,9 @@ def Op.run (s : Samples) : Op → Except String Samples
   | .fv => s.funvals
   | .vec => s.vector
   | .par => s.parameters
+  | .sub i => s.subSamples i
+  | .setVec v => s.setIsVec v
+  | .setPar v => .ok (s.setIsPar v)
 
 /-- run the ops in order; report the state after each one, stop at the first exception -/
 def runSeq : Samples → List Op → List String
@@ -164,6 +176,81 @@ def parseJoint : List String → Option (List (String × Samples))
       let r ← parseJoint rest
       pure ((k, s) :: r)
   | _ => none
+
+def parseSubIdx (s : String) : Option (Option SubIdx) :=
+  match s.splitOn ":" with
+  | ["none"] => some none
+  | ["n", k] => do let k ← k.toInt?; pure (some (.num k))
+  | ["l", ks] => do let ks ← parseIntList ks; pure (some (.list ks))
+  | _ => none
+
+def userKw (s : String) : Option (List String) :=
+  if s = "0" then some [] else if s = "1" then some ["is_par"] else if s = "2" then some ["color", "plot_par"] else none
+
+def fmtPlot (r : Except String (List Rat × Bool)) : String :=
+  match r with
+  | .error e => "err:" ++ e
+  | .ok (v, ip) => fmtVec v ++ " " ++ fmtBool ip
+
+/-- the access / glue operations of `Model/C19_access.lean` -/
+def stepAccess : List String → String
+  | ["init", g, sh, ip, iv, cols] =>
+    match parseGeom g, parseNatList sh, parseBool ip, parseBool iv, parseMat cols with
+    | some geom, some shape, some ip, some iv, some cs =>
+      match Samples.init cs shape geom ip iv with
+      | .error e => "err:" ++ e
+      | .ok s => fmtState s
+    | _, _, _, _, _ => "bad-op"
+  | ["iter", g, sh, ip, iv, cols] =>
+    match parseSamples g sh ip iv cols with
+    | some s => fmtMat s.iter ++ " " ++ fmtNatList s.fullShape
+    | none => "bad-op"
+  | ["selidx", number, total, draw] =>
+    match number.toNat?, total.toNat?, parseNatList draw with
+    | some n, some t, some d =>
+      if t ≤ n ∨ validDraw n t d then fmtNatList (selectIndices n t d) else "err:invalid-draw"
+    | _, _, _ => "bad-op"
+  | ["plot", g, sh, ip, iv, cols, idx, draw, kw] =>
+    match parseSamples g sh ip iv cols, parseSubIdx idx, parseNatList draw, userKw kw with
+    | some s, some idx, some draw, some kw =>
+      match s.plotArg idx draw kw with
+      | .error e => "err:" ++ e
+      | .ok (cs, ip) => fmtMat cs ++ " " ++ fmtBool ip
+    | _, _, _, _ => "bad-op"
+  | ["plotstat", g, sh, ip, iv, cols, kind, p, kw] =>
+    match parseSamples g sh ip iv cols, parseRat p, userKw kw with
+    | some s, some p, some kw =>
+      if s.cols.isEmpty then "nan" else
+      match kind with
+      | "mean" => fmtPlot (s.plotStat mean kw)
+      | "median" => fmtPlot (s.plotStat median kw)
+      | "variance" => fmtPlot (s.plotStat variance kw)
+      | "width" => fmtPlot (s.plotCiWidth p kw)
+      | _ => "bad-op"
+    | _, _, _ => "bad-op"
+  | ["arvizi", g, sh, ip, iv, cols, idx] =>
+    match parseSamples g sh ip iv cols, (if idx = "all" then some none else (parseIntList idx).map some) with
+    | some s, some idx =>
+      match s.toArvizI idx with
+      | .error e => "err:" ++ e
+      | .ok d => fmtDict d
+    | _, _ => "bad-op"
+  | "rhatb" :: how :: rest =>
+    match parseChains rest with
+    | some (s :: chains) =>
+      let arg : Option ChainsArg := match how, chains with
+        | "list", cs => some (.list cs)
+        | "single", [c] => some (.single c)
+        | "other", _ => some .other
+        | _, _ => none
+      match arg with
+      | none => "bad-op"
+      | some a =>
+        match s.rhatInputA a with
+        | .error e => "err:" ++ e
+        | .ok (d, pos) => fmtDict3 d ++ " # " ++ fmtPos pos
+    | _ => "bad-op"
+  | _ => "bad-op"
 
 def step : List String → String
   -- index set of the Python slice [b::t] on a sequence of length n
@@ -215,6 +302,6 @@ def step : List String → String
       | .error e => "err:" ++ e
       | .ok js' => if js'.isEmpty then "_" else " | ".intercalate (js'.map (fun kv => kv.1 ++ ":" ++ fmtState kv.2))
     | _, _, _ => "bad-op"
-  | _ => "bad-op"
+  | l => stepAccess l
 
 def main : IO Unit := runDriver step
